@@ -20,6 +20,7 @@ package main
 import (
 	"encoding/json"
 	"fmt"
+	"hash/fnv"
 	"math"
 	"math/big"
 	"os"
@@ -432,7 +433,56 @@ func main() {
 		}
 		return true
 	}
+	lawsO := newLawsOracle(ctx)
+	cl := compileLaws()
+	answers := map[uint64]struct{}{} // hashes of the distinct implementation answers compared
+	var driverTime time.Duration
+	judged := 0
+	// flush: the lines gathered so far go through the driver and are compared (batches keep the
+	// harness's live heap small: the shared runner has a memory watchdog)
+	flush := func() {
+		if len(lines) == 0 {
+			return
+		}
+		td := time.Now()
+		model, err := common.RunDriver(ctx.Driver, []string{st.Name}, lines)
+		driverTime += time.Since(td)
+		if err != nil {
+			ctx.Errorf("stream %s: %v", st.Name, err)
+		} else {
+			st.Labels = labels
+			st.Compare(lines, impl, model)
+			for i := range lines {
+				if i >= len(model) || strings.HasPrefix(model[i], "?") {
+					continue
+				}
+				h := fnv.New64a()
+				h.Write([]byte(impl[i]))
+				answers[h.Sum64()] = struct{}{}
+				// a disagreement is handed to the laws that speak about that native: they decide, on
+				// exactly that call, whether the REAL code departs from the documented function
+				if model[i] != impl[i] && judged < 400 {
+					judged++
+					judgeDisagreements(ctx, lawsO, cl, recs[i].n.name, recs[i].t)
+				}
+			}
+		}
+		if d := os.Getenv("C03_DUMP"); d != "" {
+			// development aid: the protocol lines and the implementation's answers, side by side
+			f, _ := os.OpenFile(d, os.O_APPEND|os.O_CREATE|os.O_WRONLY, 0o644)
+			var sb strings.Builder
+			for i := range lines {
+				sb.WriteString(lines[i] + "\t" + impl[i] + "\t" + labels[i] + "\n")
+			}
+			f.WriteString(sb.String())
+			f.Close()
+		}
+		lines, impl, labels, recs = nil, nil, nil, nil
+	}
 	record := func(n native, t tuple) {
+		if len(lines) >= 250000 {
+			flush()
+		}
 		if why := skipCall(n.name, t.in, t.args); why != "" {
 			st.Distribution["skipped:"+why]++
 			return
@@ -522,35 +572,12 @@ func main() {
 		}
 		record(n, t)
 	}
-	st.Labels = labels
 	tot.Distinct = len(totDistinct)
 	tot.Samples = []string{"every line of the `native` stream", "classes: ok / err:<Go type> / errv / halt / iter / panic"}
 	car.Distinct = len(carDistinct)
-	if d := os.Getenv("C03_DUMP"); d != "" {
-		// development aid: the protocol lines and the implementation's answers, side by side
-		var sb strings.Builder
-		for i := range lines {
-			sb.WriteString(lines[i] + "\t" + impl[i] + "\t" + labels[i] + "\n")
-		}
-		os.WriteFile(d, []byte(sb.String()), 0o644)
-	}
+	flush()
+	st.Distinct = len(answers)
 	tCalls := time.Now()
-	lawsO := newLawsOracle(ctx)
-	cl := compileLaws()
-	if model, err := common.RunDriver(ctx.Driver, []string{st.Name}, lines); err != nil {
-		ctx.Errorf("stream %s: %v", st.Name, err)
-	} else {
-		st.Compare(lines, impl, model)
-		// a disagreement is handed to the laws that speak about that native: they decide, on
-		// exactly that call, whether the REAL code departs from the documented function
-		judged := 0
-		for i := range lines {
-			if i < len(model) && model[i] != impl[i] && !strings.HasPrefix(model[i], "?") && judged < 400 {
-				judged++
-				judgeDisagreements(ctx, lawsO, cl, recs[i].n.name, recs[i].t)
-			}
-		}
-	}
 	if os.Getenv("C03_STREAM_ONLY") != "" {
 		ctx.Finish()
 	}
@@ -561,7 +588,7 @@ func main() {
 	lawsOracle(ctx, lawsO, cl)
 	replayFilter(ctx)
 	ctx.Res.Notes = append(ctx.Res.Notes,
-		fmt.Sprintf("phases: native calls + carrier swap %.0fs, driver %.0fs, builtin-jq %.0fs, laws %.0fs", tCalls.Sub(t0).Seconds(), t1.Sub(tCalls).Seconds(), t2.Sub(t1).Seconds(), time.Since(t2).Seconds()),
+		fmt.Sprintf("phases: native calls + carrier swap %.0fs, of which driver %.0fs; builtin-jq %.0fs, laws %.0fs", tCalls.Sub(t0).Seconds(), driverTime.Seconds(), t2.Sub(t1).Seconds(), time.Since(t2).Seconds()),
 		"calls not made (see distribution skipped:*): string repeats above 100 kB, setpath indices in [20000, 2^29), Bessel orders |n| > 1000 — math.Jn runs a recurrence of n steps, so `gojq -n 'jn(1e12; 1.5)'` does not return in any reasonable time (observation, not judged by this check)")
 	ctx.Finish()
 }
